@@ -23,7 +23,20 @@ class Findings:
         for e in self.entries:
             if e["property"] != pid or e.get("status") != "open":
                 continue
-            if all(k in fp and _m(v, fp[k]) for k, v in e["fp"].items()):
+            ok = True
+            for k, v in e["fp"].items():
+                if k.endswith("_subset"):
+                    # every observed element must be among the listed ones (unknown observation: match)
+                    got = fp.get(k[: -len("_subset")])
+                    if got is None or got == ["?"]:
+                        continue
+                    if not all(x in v for x in got):
+                        ok = False
+                        break
+                elif not (k in fp and _m(v, fp[k])):
+                    ok = False
+                    break
+            if ok:
                 return e
         return None
 
